@@ -56,6 +56,11 @@ Definition chk_enc_eqb := prod_eqb bytes_eqb (prod_eqb Bool.eqb Bool.eqb).
 Definition accepted (r : dres node) : bool := match r with DOk _ => true | _ => false end.
 Definition chk_dec (bs : bytes) : dres node * bool := (dec_full bs, accepted (dec_full_tezos bs)).
 Definition chk_dec_eqb := prod_eqb dres_node_eqb Bool.eqb.
+Definition sum_eqb {A B} (ea : A -> A -> bool) (eb : B -> B -> bool) (x y : A + B) : bool :=
+  match x, y with inl a, inl b => ea a b | inr a, inr b => eb a b | _, _ => false end.
+Definition chk_all (x : node + bytes) : (bytes * (bool * bool)) + (dres node * bool) :=
+  match x with inl n => inl (chk_enc n) | inr b => inr (chk_dec b) end.
+Definition chk_all_eqb := sum_eqb chk_enc_eqb chk_dec_eqb.
 Definition chk_tag (b : byte) : bool * option string := (known_prim b, prim_name b).
 Definition chk_tag_eqb := prod_eqb Bool.eqb (option_eqb String.eqb).
 Definition chk_tab (x : string + byte) : option byte * (bool * option string) :=
@@ -517,18 +522,18 @@ def run(ctx: lib.Ctx) -> None:
             raw.append(('corpus', bytes.fromhex(doc['bytes'])))
 
     # ---- structured stream
-    n_small, n_mid, n_big = ctx.n(600, 9000), ctx.n(120, 2500), ctx.n(16, 300)
+    n_small, n_mid, n_big = ctx.n(500, 9000), ctx.n(70, 2500), ctx.n(8, 300)
     for _ in range(n_small):
         trees.append(('small', gen_tree(rng, names, rng.choice([1, 2, 3, 4, 6, 9, 12]), big_ok=rng.random() < 0.1)[0]))
     for _ in range(n_mid):
         trees.append(('mid', gen_tree(rng, names, rng.choice([15, 20, 30, 45]), big_ok=False)[0]))
     for _ in range(n_big):
         trees.append(('big', gen_tree(rng, names, rng.choice([80, 120, 200, 200]), big_ok=rng.random() < 0.3)[0]))
-    for _ in range(ctx.n(8, 120)):
+    for _ in range(ctx.n(6, 120)):
         trees.append(('chain', chain(rng, names, rng.choice([10, 40, 90, 150]))))
-    for _ in range(ctx.n(8, 80)):
+    for _ in range(ctx.n(6, 80)):
         trees.append(('bigint', {'int': str(rng.choice([-1, 1]) * rng.getrandbits(rng.choice([2048, 4095, 4096])))}))
-    for _ in range(ctx.n(100, 1500)):   # ill-formed trees: correspondence only
+    for _ in range(ctx.n(80, 1500)):   # ill-formed trees: correspondence only
         trees.append(('illformed', gen_tree(rng, names + helper[:3], rng.choice([1, 2, 4, 8, 15]), wf=False, big_ok=False)[0]))
 
     enc_cases, enc_meta = [], []
@@ -568,9 +573,6 @@ def run(ctx: lib.Ctx) -> None:
                 valid_encodings.append(b)
 
     lap('structured:python')
-    bad_enc = ctx.coq_mismatches('enc', IMPORTS, 'chk_enc', 'chk_enc_eqb', 'node', 'bytes * (bool * bool)', enc_cases, prelude=PRELUDE, shard=ctx.n(120, 300))
-
-    lap('structured:coqc')
     # ---- malformed stream
     for kind, m in handmade(rng, names_by_tag):
         raw.append((kind, m))
@@ -619,9 +621,18 @@ def run(ctx: lib.Ctx) -> None:
                     'repro': f"unforge_micheline(bytes.fromhex('{m.hex()[:4000]}'))"})
 
     lap('malformed:python')
-    bad_dec = ctx.coq_mismatches('dec', IMPORTS, 'chk_dec', 'chk_dec_eqb', 'bytes', 'dres node * bool', dec_cases, prelude=PRELUDE, shard=400)
-
-    lap('malformed:coqc')
+    # one evaluation of the model over both streams (input: node + bytes), split evenly over the available cores
+    all_cases = [(f'(inl {a})', f'(inl {b})') for a, b in enc_cases] + [(f'(inr {a})', f'(inr {b})') for a, b in dec_cases]
+    order = list(range(len(all_cases)))
+    rng.shuffle(order)      # balance the shards
+    per = max(150, min(ctx.n(900, 600), -(-len(all_cases) // lib.n_jobs())))
+    bad_all = ctx.coq_mismatches('cases', IMPORTS, 'chk_all', 'chk_all_eqb', 'node + bytes', '(bytes * (bool * bool)) + (dres node * bool)',
+                                 [all_cases[i] for i in order], prelude=PRELUDE, shard=per)
+    bad_all = sorted(order[i] for i in bad_all)
+    bad_enc = [i for i in bad_all if i < len(enc_cases)]
+    bad_dec = [i - len(enc_cases) for i in bad_all if i >= len(enc_cases)]
+    lap('coqc')
+    ctx.extra['literal_kb'] = {'structured': sum(len(a) + len(b) for a, b in enc_cases) // 1024, 'malformed': sum(len(a) + len(b) for a, b in dec_cases) // 1024}
     ctx.extra['structured_cases'] = len(enc_cases)
     ctx.extra['malformed_cases'] = len(dec_cases)
     ctx.extra['valid_fraction_of_malformed_stream'] = round(sum(1 for x in dec_meta if x[2]) / max(1, len(dec_meta)), 3)
